@@ -10,7 +10,7 @@ import (
 	"github.com/facebookincubator/dns/dnsrocks/zzverif/nd"
 )
 
-//verif:harness H09_preproc property=C09 native=no quick=lines=2;lines=3 thorough=lines=4
+//verif:harness H09_preproc property=C09 native=no quick=lines=2;lines=3 thorough=lines=3
 
 var verifPreLines = []string{
 	"%ab,10.0.0.0/8,mm",
